@@ -148,6 +148,17 @@ fn main() {
             }
             std::process::exit(0);
         }
+        "DUMPGEN" => {
+            // debugging aid: print a few generated clustered lists with one request each
+            let n: u64 = ctx.extra.get("n").and_then(|s| s.parse().ok()).unwrap_or(3);
+            for i in 0..n {
+                let mut r = rng::Rng::for_case(ctx.seed, "dumpgen", i);
+                let rules = gen::gen_clustered_list(&mut r, &gen::Profile::ALL);
+                let q = gen::gen_request(&mut r, &rules);
+                println!("--- {}\n{}\n=> {} {} {}", i, rules.join("\n"), q.url, q.source, q.rtype);
+            }
+            std::process::exit(0);
+        }
         "DUMPNET" => {
             // debugging aid: abverif DUMPNET --set "rules=/a/b|;/a/c|" --set url=.. --set source=.. --set type=..
             let rules: Vec<String> = ctx.extra.get("rules").map(|s| s.split(';').map(|x| x.to_string()).collect()).unwrap_or_default();
